@@ -245,6 +245,11 @@ def process_integrals(ck, rng, table):
     from scipy import integrate
 
     m = models.random_fam_model(rng, n_dim=2) if table else doubles.random_model(rng, n_dim=2)
+    if not table:
+        # location-free doubles only: a location parameter makes the density jump along a curve inside the
+        # integration domain and nested adaptive quadrature (the code's and the reference's alike) is then only
+        # good to ~1e-3, which says nothing about the property
+        m.l = [doubles.Dep("fixed", [0.0]) for _ in m.l]
     model = m.build()
     case = {"part": "C", "mode": "table" if table else "doubles", "model": m.describe()}
     ck.case(case, nontrivial=m.n_dependent() >= 1, sample=False)
